@@ -753,6 +753,11 @@ class ReadInterp(Interp):
             # `while x > 0` on an unsigned counter: the loop leaves with x == 0
             fr.env[bv["var"]["id"]] = Poly()
             rec["exit_var"] = bv["var"]["name"]
+        elif sv.get("k") == "Var" and sv["var"]["id"] in fr.env and self._no_overshoot_guard(e["body"], big, small, sv["var"]["id"]):
+            # `while accounted < declared { ..; if n > declared - accounted { return Err }; accounted += n }`: the guard keeps
+            # accounted <= declared, so the loop leaves with accounted == declared (a count-down in disguise)
+            fr.env[sv["var"]["id"]] = as_poly(self.eval(fr, big), "loop bound")
+            rec["exit_var"] = sv["var"]["name"]
         elif sv.get("k") == "Var" and sv["var"]["id"] in fr.env:
             # `while declared > accounted`: the loop leaves with accounted >= declared; whether they are equal is
             # what a following `declared != accounted -> error` test establishes (learned in fork())
@@ -777,6 +782,39 @@ class ReadInterp(Interp):
             if vid in fr.env:
                 fr.env[vid] = Opaque("loop-carried")
         return UNIT
+
+    def _no_overshoot_guard(self, body, big, small, small_id):
+        """the loop body refuses (returns / errors) when the next increment exceeds `big - small`, and `small` is only ever
+        increased by that increment"""
+        bt, st = pp(strip(big)), pp(strip(small))
+        incs = []
+        for n in walk_all(body):
+            if n.get("k") == "AssignOp" and n.get("op") == "AddAssign" and strip(n["l"]).get("k") == "Var" and strip(n["l"])["var"]["id"] == small_id:
+                incs.append(pp(strip(n["r"])))
+            elif n.get("k") in ("Assign", "AssignOp") and strip(n["l"]).get("k") == "Var" and strip(n["l"])["var"]["id"] == small_id:
+                return False
+        if len(incs) != 1:
+            return False
+        inc = incs[0]
+        for n in walk_all(body):
+            if n.get("k") != "If":
+                continue
+            c = unblock(n["cond"])
+            leaves = unblock(n["then"]).get("ty") == "!" or any(z.get("k") == "Return" for z in walk_all(n["then"]))
+            if c.get("k") != "Binary" or not leaves:
+                continue
+            l, r, op = unblock(c["l"]), unblock(c["r"]), c["op"]
+            if op in ("Lt", "Le"):
+                l, r, op = r, l, {"Lt": "Gt", "Le": "Ge"}[op]
+            if op != "Gt":
+                continue
+            # inc > big - small
+            if pp(strip(l)) == inc and r.get("k") == "Binary" and r["op"] == "Sub" and pp(strip(r["l"])) == bt and pp(strip(r["r"])) == st:
+                return True
+            # small + inc > big
+            if pp(strip(r)) == bt and l.get("k") == "Binary" and l["op"] == "Add" and {pp(strip(l["l"])), pp(strip(l["r"]))} == {st, inc}:
+                return True
+        return False
 
     def _cmp_of(self, ind):
         """(big, small) polynomials such that the condition is `big > small` / `big != small`, for a condition that evaluated
@@ -950,6 +988,20 @@ class ReadInterp(Interp):
             self.consumed = self.consumed + Poly.const(2) + g_val(sym)
             self.reads.append(("call", res, [("call", "common::utils::read_u16", [("read_exact", "2")], sym[0]), ("read_exact", "val(%s)" % sym[0])], sym[0]))
             return BufVal(g_val(sym))
+        if d.startswith("core::option::Option") and name == "map_or" and len(args) == 3:
+            optv = self.eval(fr, args[0])
+            dflt = self.eval(fr, args[1])
+            f = self.eval_quiet(fr, args[2])
+            if isinstance(optv, PathVal) and isinstance(f, tuple) and f and f[0] in ("closure", "fnitem"):
+                a_ = ("some", optv.path)
+                if a_ in self.known:
+                    return self.apply_fn(fr, f, [PathVal(optv.path)], args[2]) if self.known[a_] else dflt
+                ind = Poly.atom(a_)
+                try:
+                    return ind * as_poly(self.apply_fn(fr, f, [PathVal(optv.path)], args[2]), "map_or closure") + \
+                        (Poly.const(1) - ind) * as_poly(dflt, "map_or default")
+                except Unsupported:
+                    return Opaque("map_or")
         if name == "map" and len(args) == 2 and (d.startswith("core::result::Result") or d.startswith("core::option::Option")):
             # `read(..).await.map(Arc::new)?` / `.map(|s| Arc::new(s))`: the mapped value of the success case
             v = self.eval(fr, args[0])
